@@ -376,7 +376,30 @@ def scn_history(ctx):
         if len(idx) == 0:
             continue
         before = histsim.digest_args((E, B))
-        if name.startswith("tau_exit_prob"):
+        if name.startswith("tau_exit_prob") and 6 <= len(idx) <= 4096 and ch.draw(10, "nd_input") == 9:
+            # the same events as 2-D arrays that are not C-contiguous (a transposed mesh, Fortran order):
+            # element [i, j] of the result belongs to element [i, j] of the inputs
+            r = (2, 3)[ch.draw(2, "nd_rows")]
+            c = len(idx) // r
+            idx = idx[: r * c]
+            lay = ch.draw(3, "nd_layout")
+            B2 = np.array(P["B"][idx]).reshape(r, c)
+            E2 = np.array(P["E"][idx]).reshape(r, c)
+            if lay == 0:
+                B2, E2 = np.asfortranarray(B2), np.asfortranarray(E2)
+            elif lay == 1:
+                B2, E2 = np.ascontiguousarray(B2.T).T, E2  # mixed layouts
+            else:
+                B2, E2 = np.ascontiguousarray(B2.T).T, np.asfortranarray(E2)
+            before = histsim.digest_args((E2, B2))
+            got2 = np.asarray(obj.tau_exit_prob(B2, E2))
+            ctx.probes["two_dimensional_non_c_ordered_input"] += 1
+            ctx.log(f"op{opi} {name} 2-D {r}x{c} layout={lay}")
+            if got2.shape != (r, c):
+                raise Violation("c05.shape", f"op {opi}: inputs of shape {(r, c)} gave output of shape {got2.shape}", sig="tau_exit_prob:nd")
+            _check_values(ctx, v, P, idx, got2.reshape(-1), memo, name + "[2-D]", opi)
+            E, B = E2, B2
+        elif name.startswith("tau_exit_prob"):
             got = obj.tau_exit_prob(B, E)
             ctx.log(f"op{opi} {name} n={len(idx)} first={int(idx[0])} cats={sorted(set(P['cat'][i] for i in idx[:50].tolist()))}")
             _check_values(ctx, v, P, idx, got, memo, name, opi)
